@@ -3,6 +3,7 @@ package c_exchange
 import (
 	"context"
 	"fmt"
+	"math/big"
 	"net"
 	"testing"
 	"testing/synctest"
@@ -29,9 +30,9 @@ func TestC09(t *testing.T) {
 		temp := rapid.Bool().Draw(t, "temp")
 		expiresIn := rapid.SampledFrom([]int{60, 3600, 86400}).Draw(t, "expiresIn")
 		dc := rapid.SampledFrom([]int{1, 2, 3, 4, 5, 10001, 10002, -2, -10004}).Draw(t, "dc")
-		server := rapid.SampledFrom([]string{"in-tree", "in-tree", "reference"}).Draw(t, "server")
+		server := rapid.SampledFrom([]string{"in-tree", "in-tree", "in-tree", "reference", "reference", "reference-leading-zero-key"}).Draw(t, "server")
 		proto := rapid.IntRange(0, 3).Draw(t, "proto")
-		if server == "reference" {
+		if server != "in-tree" {
 			proto = 1 // the reference server speaks the intermediate transport
 		}
 		ncuts := rapid.IntRange(0, 4).Draw(t, "ncuts")
@@ -48,11 +49,41 @@ func TestC09(t *testing.T) {
 			cc := &chunkConn{Conn: c1, cuts: cuts}
 			sc := &chunkConn{Conn: c2, cuts: cuts}
 			keys := []exchange.PublicKey{{RSA: &tk.PublicKey}}
-			protos := []transport.Protocol{transport.Abridged, transport.Intermediate, transport.PaddedIntermediate, transport.Full}
 			ctx := context.Background()
+			protos := []transport.Protocol{transport.Abridged, transport.Intermediate, transport.PaddedIntermediate, transport.Full}
 			var cres clientResult
-			if server == "reference" {
-				srv := &pbt.ExServer{Conn: sc, Key: tk, Rnd: srnd}
+			var forceA *big.Int
+			if server == "reference-leading-zero-key" {
+				// A key whose first byte is zero (1 in 256 by chance) is forced: a dry run
+				// with the same client stream reveals the client's g_b (the client draws its
+				// secret b before it uses the server's g_a), then the server secret a is
+				// searched so that g_b^a mod p < 2^2040, and the real run uses that a.
+				d1, d2 := net.Pipe()
+				dry := &pbt.ExServer{Conn: d2, Key: tk, Rnd: pbt.NewStream(sseed)}
+				ddone := make(chan error, 1)
+				go func() { ddone <- dry.Run() }()
+				dres := <-runClient(ctx, d1, pbt.NewStream(cseed), dc, time.Minute, temp, expiresIn, keys, t0)
+				if err := <-ddone; err != nil || dres.err != nil {
+					t.Fatalf("dry run failed: server=%v client=%v", err, dres.err)
+				}
+				_ = d1.Close()
+				_ = d2.Close()
+				limit := new(big.Int).Lsh(big.NewInt(1), 2040)
+				a := new(big.Int).SetBytes(pbt.NewStream(sseed ^ 0x5eed).Bytes(256))
+				for i := 0; ; i++ {
+					if new(big.Int).Exp(dry.GB, a, pbt.TelegramPrime).Cmp(limit) < 0 {
+						break
+					}
+					a.Add(a, big.NewInt(1))
+					if i > 20000 {
+						t.Fatalf("no server secret with a leading-zero key found")
+					}
+				}
+				forceA = a
+				crnd, srnd = pbt.NewStream(cseed), pbt.NewStream(sseed)
+			}
+			if server != "in-tree" {
+				srv := &pbt.ExServer{Conn: sc, Key: tk, Rnd: srnd, ForceA: forceA}
 				done := make(chan error, 1)
 				go func() { done <- srv.Run() }()
 				cres = <-runClient(ctx, cc, crnd, dc, time.Minute, temp, expiresIn, keys, t0)
@@ -67,6 +98,9 @@ func TestC09(t *testing.T) {
 				}
 				if cres.res.ServerSalt != srv.ServerSalt {
 					t.Fatalf("client salt %#x, reference new_nonce[0:8] xor server_nonce[0:8] = %#x", cres.res.ServerSalt, srv.ServerSalt)
+				}
+				if forceA != nil && srv.AuthKey[0] != 0 {
+					t.Fatalf("harness: forced key does not start with a zero byte (client drew a different b in the real run)")
 				}
 				if srv.TempMode != temp || (temp && int(srv.ExpiresIn) != expiresIn) || int(srv.DC) != dc {
 					t.Fatalf("inner data: temp=%v expires=%d dc=%d, want %v %d %d", srv.TempMode, srv.ExpiresIn, srv.DC, temp, expiresIn, dc)
